@@ -112,6 +112,11 @@ def run(R, tier, seed, driver_ok):
                     ('score_pairs', abs(sp[i] - pd[i]), 0.0),
                     ('single-pair-batch', abs(single[i] - pd[i]), 1e-12 * sd),
                 ]
+                # the `squared` flag in every truthy / falsy spelling a caller may hold (a numpy bool from a comparison, 0/1)
+                for flag in (np.True_, 1, np.bool_(True)):
+                    checks.append((f'get_metric-squared-flag-{type(flag).__name__}', abs(float(metric(x0, x1, squared=flag)) - msq), 0.0))
+                for flag in (np.False_, 0):
+                    checks.append((f'get_metric-plain-flag-{type(flag).__name__}', abs(float(metric(x0, x1, squared=flag)) - m), 0.0))
                 for nm_, err, tol in checks:
                     if not err <= tol + 1e-300:
                         R.violation(f'view-{nm_}', f'{label}: view {nm_} differs from pair_distance by {err:.3g} (tol {tol:.3g})', case)
